@@ -172,9 +172,11 @@ example : isBetter wAfterGood (epochOf wGood.path) wGood = false ∧ isRefusal (
 
 /-! ### the frame over `Model.Proposal`: every proposal type, commits that reference queued proposals.
     The projection additionally contains the foreign part of the proposal store (`xq`; the leaves are `Proj.props`).
-    New with the proposal flow: `auto_commit_proposal` stores the proposal BEFORE it tries to build the commit, so when the
-    commit cannot be built (a commit is pending; a queued Remove names the receiver) the call is refused — `Unprocessable`,
-    Failed record, never retried — with the proposal left in the store (finding autocommit-failed-proposal-stored). -/
+    Found with the proposal flow and REPAIRED in /repo (0339cde): `auto_commit_proposal` stored the proposal BEFORE it tried to
+    build the commit, so when the commit could not be built (a commit is pending; a queued Remove names the receiver) the call
+    was refused — `Unprocessable`, Failed record, never retried — with the proposal left in the store (finding
+    autocommit-failed-proposal-stored).  Now the proposal is kept as a pending one and the call says so; the model follows the
+    regenerated fact `Generated.autoCommitChecksBeforeStore`, and the hypothesis that excluded the case is gone. -/
 section ProposalFrame
 open MdkVerif.Proposal
 
@@ -184,11 +186,6 @@ def refuse_frame_P_full : Prop :=
   ∀ (c : Cl) (x : PEv) (nx : Nat), Synced c.g → isRefusal (deliverP c x nx).2 = true → projP (deliverP c x nx).1 = projP c
 
 def FrameP (c : Cl) (r : Cl × Res) : Prop := isRefusal r.2 = true → projP r.1 = projP c
-
-/-- the event is a member's own leave, the receiver is an admin, and the auto-commit cannot be built -/
-def AutoCommitBlocked (c : Cl) (x : PEv) : Prop :=
-  propKind x = some (.remove x.e.sender) ∧ isAdmin c.g c.id = true ∧
-  (c.g.pending.isSome = true ∨ storeRemoves (storeProp c.g x.e.sender (.remove x.e.sender)) c.id = true)
 
 theorem ownMessage_xq (c : Cl) (e : Ev) : (ownMessage c e).1.g.xq = c.g.xq := by
   unfold ownMessage
@@ -203,18 +200,11 @@ theorem notBetterResult_xq (c : Cl) (e : Ev) : (notBetterResult c e).1.g.xq = c.
 theorem frameP_of (c : Cl) (r : Cl × Res) (h : Frame c r) (hx : r.1.g.xq = c.g.xq) : FrameP c r := by
   intro hr; simp [projP, h hr, hx]
 
-theorem storeRemoves_storeProp (g g' : GState) (s me : Nat) (p : PK) (h1 : g'.props = g.props) (h2 : g'.xq = g.xq) :
-    storeRemoves (storeProp g' s p) me = storeRemoves (storeProp g s p) me := by
-  cases p with
-  | remove t => simp only [storeRemoves, storeProp]; split <;> simp [h1, h2]
-  | add w => simp [storeRemoves, storeProp, h1, h2]
-  | update => simp [storeRemoves, storeProp, h1, h2]
-  | gce => simp [storeRemoves, storeProp, h1, h2]
-  | other => simp [storeRemoves, storeProp, h1, h2]
-
-/-- one pass over `Model.Proposal`, provided no rollback is triggered and the event is not an auto-commit that cannot be built -/
+/-- one pass over `Model.Proposal`: a refused event leaves the projection alone — for a COMMIT provided no rollback is
+    triggered (`hnb`; the open finding rollback-before-authorisation), for application messages and proposals of every type
+    without any proviso -/
 theorem step1P_refuse_frame (retry : Cl → Option (Cl × Res)) (nx : Nat) (c : Cl) (x : PEv) (hs : Synced c.g)
-    (hnb : isBetter c (epochOf x.e.path) x.e = false) (hb : ¬ AutoCommitBlocked c x) : FrameP c (step1P retry nx c x) := by
+    (hnb : propKind x = none → isBetter c (epochOf x.e.path) x.e = false) : FrameP c (step1P retry nx c x) := by
   have hwx : (withSecret c).g.xq = c.g.xq := by simp
   unfold step1P
   simp only
@@ -243,34 +233,17 @@ theorem step1P_refuse_frame (retry : Cl → Option (Cl × Res)) (nx : Nat) (c : 
                 | other => intro _; simp [projP, setRec, proj, withSecret, ensureSecret_fields, ensureSecret_data]
                 | add w => intro h; simp [isRefusal] at h
                 | remove t =>
-                  simp only
+                  simp only [checksFirst, Generated.autoCommitChecksBeforeStore, if_true]
                   split
-                  · rename_i hcond
-                    split
-                    · -- the auto-commit cannot be built: excluded by the hypothesis
-                      rename_i hblk
-                      exfalso
-                      apply hb
-                      simp only [Bool.and_eq_true, beq_iff_eq] at hcond
-                      obtain ⟨ht, hadm⟩ := hcond
-                      subst ht
-                      refine ⟨hp, by simpa [isAdmin] using hadm, ?_⟩
-                      simp only [Bool.or_eq_true] at hblk
-                      rcases hblk with hblk | hblk
-                      · left
-                        have : (storeProp { (withSecret c).g with consumed := x.e.cipher :: (withSecret c).g.consumed } x.e.sender (.remove x.e.sender)).pending = c.g.pending := by
-                          simp [storeProp]
-                        rw [this] at hblk; exact hblk
-                      · right
-                        rw [storeRemoves_storeProp c.g _ x.e.sender _ _ (by simp) (by simp)] at hblk
-                        exact hblk
-                    · intro h; simp [isRefusal] at h
+                  · split <;> (intro h; simp [isRefusal] at h)
                   · intro h; simp [isRefusal] at h
-        · split
+        · rename_i hpn
+          have hnb' := hnb hpn
+          split
           · -- commit
             split
             · unfold wrongEpochCommit
-              simp only [withSecret_isBetter, hnb, Bool.false_eq_true, if_false]
+              simp only [withSecret_isBetter, hnb', Bool.false_eq_true, if_false]
               exact frameP_of c _ (frame_notBetter c x.e hs) (by rw [notBetterResult_xq]; exact hwx)
             · split
               · split
@@ -297,12 +270,8 @@ theorem step1P_refuse_frame (retry : Cl → Option (Cl × Res)) (nx : Nat) (c : 
                   · exact frameP_of c _ (frame_fail c x.e) (by simp [failUnprocessable, recordFailure, setRec])
                   · intro h; simp [isRefusal, storeApp] at h
 
-/-- **refuse_frame_P_partial**: for every client state, every event — application message, commit with or without referenced
-    proposals, proposal of ANY type — and every fuel: if no rollback is triggered and the event is not a leave whose
-    auto-commit cannot be built, a refused event (`Err`, `Unprocessable`, `PreviouslyFailed`, `IgnoredProposal`) leaves the
-    projection — MLS state, roster, data, BOTH parts of the proposal store, pending commit, record, messages — exactly as it was -/
-theorem refuse_frame_P_partial (fuel nx : Nat) (c : Cl) (x : PEv) (hs : Synced c.g)
-    (hnb : isBetter c (epochOf x.e.path) x.e = false) (hb : ¬ AutoCommitBlocked c x)
+theorem deliverNP_refuse_frame (fuel nx : Nat) (c : Cl) (x : PEv) (hs : Synced c.g)
+    (hnb : propKind x = none → isBetter c (epochOf x.e.path) x.e = false)
     (h : isRefusal (deliverNP fuel nx c x).2 = true) : projP (deliverNP fuel nx c x).1 = projP c := by
   have key : ∀ retry, FrameP c (deliverOnceP retry nx c x) := by
     intro retry
@@ -310,37 +279,98 @@ theorem refuse_frame_P_partial (fuel nx : Nat) (c : Cl) (x : PEv) (hs : Synced c
     split
     · split
       · intro _; rfl
-      · exact step1P_refuse_frame retry nx c x hs hnb hb
-    · exact step1P_refuse_frame retry nx c x hs hnb hb
+      · exact step1P_refuse_frame retry nx c x hs hnb
+    · exact step1P_refuse_frame retry nx c x hs hnb
   cases fuel with
   | zero => exact key _ h
   | succ f => exact key _ h
 
-/-- the hypothesis is necessary: admin 0 has staged a commit of its own (pending until its echo) when member 1's leave
-    arrives — the call answers `Unprocessable`, the leave is in the store, and it stays there (the record is Failed, the
-    event is never processed again); replayed on the implementation: corpus/C06/autocommit_fails_after_store.trace -/
+/-- **refuse_frame_P_partial**: for every client state, every event — application message, commit with or without referenced
+    proposals, proposal of ANY type — and every fuel: if no rollback is triggered, a refused event (`Err`, `Unprocessable`,
+    `PreviouslyFailed`, `IgnoredProposal`) leaves the projection — MLS state, roster, data, BOTH parts of the proposal store,
+    pending commit, record, messages — exactly as it was.  (Before repair 0339cde a second hypothesis excluded a leave whose
+    auto-commit cannot be built.) -/
+theorem refuse_frame_P_partial (fuel nx : Nat) (c : Cl) (x : PEv) (hs : Synced c.g)
+    (hnb : isBetter c (epochOf x.e.path) x.e = false)
+    (h : isRefusal (deliverNP fuel nx c x).2 = true) : projP (deliverNP fuel nx c x).1 = projP c :=
+  deliverNP_refuse_frame fuel nx c x hs (fun _ => hnb) h
+
+/-- **refuse_frame_proposals** — IN FULL for proposals: for every client state (record in step), every proposal of every type
+    (a member's leave, Remove of somebody else, Add, Update, GroupContextExtensions, PSK, …), from anybody, any epoch, any
+    fuel, offered any number of times: whenever `process_message` reports failure or `IgnoredProposal`, the projection —
+    the number and content of the proposal store included — is exactly what it was.  No hypothesis about rollbacks (a
+    proposal never triggers one), none about pending commits (repair 0339cde) -/
+theorem refuse_frame_proposals (fuel nx : Nat) (c : Cl) (x : PEv) (p : PK) (hs : Synced c.g) (hk : propKind x = some p)
+    (h : isRefusal (deliverNP fuel nx c x).2 = true) : projP (deliverNP fuel nx c x).1 = projP c :=
+  deliverNP_refuse_frame fuel nx c x hs (fun hn => by rw [hk] at hn; cases hn) h
+
+/-- regression statement of repair 0339cde (was `witness_autocommit_fails_after_store`; replayed on the implementation by
+    corpus/C06/autocommit_fails_after_store.trace): admin 0 has staged a commit of its own (pending until its echo) when member
+    1's leave arrives — the leave is KEPT as a pending proposal and the call says so (`PendingProposal`, record Processed), the
+    pending commit is untouched; a re-delivery is refused without effect; the admin's next commit finds the leave in the store -/
 def wAdminPending : Cl := (stageCommitP (initCl 0 false 5 [0, 1, 2] [0] 1) 0 10 11 .selfUpdate false).1
 def wLeave1 : PEv := { e := { n := 1, ts := 20, idnum := 21, cipher := 1, sender := 1, path := [], kind := .leave } }
 
-theorem witness_autocommit_fails_after_store :
+theorem regression_autocommit_kept_pending :
     wAdminPending.g.props = [] ∧
-    (deliverP wAdminPending wLeave1 2).2 = .unprocessable ∧ (deliverP wAdminPending wLeave1 2).1.g.props = [1] ∧
+    (deliverP wAdminPending wLeave1 2).2 = .pending ∧ (deliverP wAdminPending wLeave1 2).1.g.props = [1] ∧
+    (deliverP wAdminPending wLeave1 2).1.g.pending = wAdminPending.g.pending ∧
+    getRec (deliverP wAdminPending wLeave1 2).1 1 = some { state := 1, epoch := some 1, hasGroup := true, mid := none } ∧
     (deliverP (deliverP wAdminPending wLeave1 2).1 wLeave1 2).2 = .unprocessable ∧
-    -- … and the admin's next commit of its own carries the leave out after all
+    projP (deliverP (deliverP wAdminPending wLeave1 2).1 wLeave1 2).1 = projP (deliverP wAdminPending wLeave1 2).1 ∧
     (Client.clear (deliverP wAdminPending wLeave1 2).1).1.g.props = [1] := by decide
 
+/-- … the same when the receiver's OWN leave is queued (a commit cannot remove its author) -/
+theorem regression_autocommit_kept_pending_own_leave :
+    let c := (Client.leave (initCl 0 false 5 [0, 1, 2] [0] 1) 0 10 11).1
+    c.g.props = [0] ∧ (deliverP c wLeave1 2).2 = .pending ∧ (deliverP c wLeave1 2).1.g.props = [1, 0] ∧
+    (deliverP c wLeave1 2).1.g.pending = none := by decide
+
+/-- the full statement (every event, no proviso) stays false for COMMITS: the rollback of `rollback-before-authorisation`
+    happens in `Model.Proposal` exactly as in `Model.Client` (`wAfterGood`, `wEvil` above) -/
 theorem refuse_frame_P_full_false : ¬ refuse_frame_P_full := by
   intro h
-  have := h wAdminPending wLeave1 2 (by decide) (by decide)
+  have := h wAfterGood { e := wEvil } 0 (by decide) (by decide)
   revert this; decide
 
-/-- non-vacuity of `refuse_frame_P_partial`: refused events of the new kinds — a GroupContextExtensions proposal (ignored), a
-    commit whose referenced leave the receiver does not hold -/
+/-- **eviction_decided_by_commit** (repair e46593e; regenerated fact `evictionFromStagedCommit`): an authorised commit makes
+    an active receiver inactive exactly when the commit ITSELF removes the receiver — by its own Remove, a referenced leave, or a
+    referenced foreign Remove — whatever else it does, in particular when it also ADDS somebody (who then takes the freed leaf:
+    the case `own_leaf().is_none()` after the merge used to miss) -/
+theorem eviction_decided_by_commit (c : Cl) (e : Ev) (b : Body) (sw : List Nat) (hact : c.g.active = true)
+    (hauth : (isAdmin c.g e.sender || isPureSelfUpdateP b sw e.sweptX) = true) :
+    (processCommitP c e b sw).2 = .commit ∧ (processCommitP c e b sw).1.g.active = !(removesMeP c.id b sw e.sweptX) := by
+  unfold processCommitP
+  simp only [hauth, Bool.not_true, Bool.false_eq_true, if_false]
+  cases hr : removesMeP c.id b sw e.sweptX with
+  | true => simp [setRec]
+  | false => simp [setRec, syncRec, mgrCreate, hact]
+
+theorem eviction_from_staged_commit : Generated.evictionFromStagedCommit = true := by decide
+
+/-- regression statement of repair e46593e (was the implementation-only witness of evicted-leaf-reused-undetected; replayed on
+    the implementation AND the model by corpus/C06/evicted_leaf_reused.trace): the non-admin 1 crafted an Add of 4, member 2
+    asked to leave, admin 0's automatic commit carries both; the leaver processes it: `Commit`, its group is inactive -/
+def evOf : Res → Ev
+  | .proposalCommitted ne => ne
+  | _ => default
+def wMk (i : Nat) : Cl := initCl i false 5 [0, 1, 2, 3] [0] 1
+def wXAdd4 : PEv := craftProp (wMk 1) 0 10 11 (.add 4)
+def wLeaver2 : Cl := (Client.leave (deliverP (wMk 2) wXAdd4 0).1 1 20 21).1
+def wAdminAuto : Cl × Res :=
+  deliverP (deliverP (wMk 0) wXAdd4 0).1 { e := { n := 1, ts := 20, idnum := 21, cipher := 1, sender := 2, path := [], kind := .leave } } 2
+
+theorem regression_evicted_when_leaf_reused :
+    wAdminAuto.2 = .proposalCommitted (evOf wAdminAuto.2) ∧
+    (deliverP wLeaver2 { e := evOf wAdminAuto.2 } 0).2 = .commit ∧ (deliverP wLeaver2 { e := evOf wAdminAuto.2 } 0).1.g.active = false ∧
+    (deliverP wLeaver2 { e := evOf wAdminAuto.2 } 0).1.g.members = [0, 1, 3, 4] ∧ (mergeP wAdminAuto.1).1.g.members = [0, 1, 3, 4] := by decide
+
+/-- non-vacuity of `refuse_frame_P_partial` / `refuse_frame_proposals`: refused events of the new kinds — a
+    GroupContextExtensions proposal (ignored), a commit whose referenced leave the receiver does not hold -/
 example : let c := initCl 2 false 5 [0, 1, 2] [0] 1
     let x : PEv := craftProp (initCl 1 false 5 [0, 1, 2] [0] 1) 1 10 11 .gce
     let y : PEv := { e := { n := 2, ts := 10, idnum := 11, cipher := 2, sender := 0, path := [], kind := .commit .selfUpdate [1] } }
-    ¬ AutoCommitBlocked c x ∧ (deliverP c x 0).2 = .ignored ∧ ¬ AutoCommitBlocked c y ∧ (deliverP c y 0).2 = .unprocessable := by
-  refine ⟨?_, by decide, ?_, by decide⟩ <;> (intro h; have := h.1; revert this; decide)
+    propKind x = some .gce ∧ (deliverP c x 0).2 = .ignored ∧ (deliverP c y 0).2 = .unprocessable := by decide
 
 end ProposalFrame
 
